@@ -1,0 +1,17 @@
+// Copyright 2022-2026 Sauce Labs Inc., all rights reserved.
+//
+// This Source Code Form is subject to the terms of the Mozilla Public
+// License, v. 2.0. If a copy of the MPL was not distributed with this
+// file, You can obtain one at https://mozilla.org/MPL/2.0/.
+
+//go:build verif
+
+package ratelimit
+
+import "golang.org/x/time/rate"
+
+// VerifNewRateLimiter exposes newRateLimiter to the verification harness.
+func VerifNewRateLimiter(bandwidth int64) *rate.Limiter { return newRateLimiter(bandwidth) }
+
+// VerifLimiters returns the limiters shared by the connections accepted from l (nil = none).
+func VerifLimiters(l *Listener) (rx, tx *rate.Limiter) { return l.rxLimiter, l.txLimiter }
